@@ -13,7 +13,7 @@ CHECKS = {
    note="the model of a tag is read off doc-cli.md / seq.rs: parent words, then word files separated by one empty line; each entry applied to the previous stage's rendered words with the tag's own alias; a stage that errors yields no file",
    technique="model-driven differential on the binary's output tree + bounded rejection of cyclic configurations"),
  "C12": dict(level="exploration", design="§3 C12",
-   text="Shorthand-vs-expansion monitor: every group letter against the manual's matrix on every single segment the notation can write (8.8 k quick, 370 k thorough), and 40 k (quick) / 20 M (thorough) descriptions, each printed as the shorthand and as its mechanical expansion - condensed comma rules vs the sequence of sub-rules, `_,X` vs `X_ , _X` mirrored, group letters vs the manual's matrices, optionals `(X,M:N)` (with pre- and multi-element post-context, in context or exception) vs the environment set of their repetitions (a third of them aimed at the retry path: broad repeated element, room for more repetitions, a rest that often matches in part), `A B > &` vs `A=1 B=2 > 2 1`, the spellings `(X)` / `(X,1)` / `(X,0:1)` and `(X,N)` / `(X,0:N)` of one optional - applied by the real interpreter to small words over {a k i t} in random syllabifications and to generated words; structural results (hook) must be equal or both fail (460 k applications quick).",
+   text="Shorthand-vs-expansion monitor: every group letter - bare, and with each of 10 features as an overriding modifier - against the manual's matrix on every single segment the notation can write (8.8 k quick, 370 k thorough), and 40 k (quick) / 20 M (thorough) descriptions, each printed as the shorthand and as its mechanical expansion - condensed comma rules vs the sequence of sub-rules, `_,X` vs `X_ , _X` mirrored, group letters vs the manual's matrices, optionals `(X,M:N)` (with pre- and multi-element post-context, in context or exception) vs the environment set of their repetitions (a third of them aimed at the retry path: broad repeated element, room for more repetitions, a rest that often matches in part), `A B > &` vs `A=1 B=2 > 2 1`, the spellings `(X)` / `(X,1)` / `(X,0:1)` and `(X,N)` / `(X,0:N)` of one optional - applied by the real interpreter to small words over {a k i t} in random syllabifications and to generated words; structural results (hook) must be equal or both fail (460 k applications quick).",
    note="known finding KF-C12-1 (metathesis spellings differ when a long segment is swapped); the group table is copied from doc.md, not from the parser",
    technique="metamorphic (shorthand vs expansion) runtime monitor on the structural hook"),
  "C13": dict(level="exploration", design="§3 C13",
@@ -29,11 +29,11 @@ CHECKS = {
    note="`+` lines are judged on base phones only (the program appends to the nearest base phone by design); alias lines the program rejects are counted, not judged",
    technique="reference-printer / encode-decode runtime monitor (structural hook + public API)"),
  "C17": dict(level="fault_enumeration", design="§3 C17",
-   text="Fault-injection monitor: 60 (quick) / 12 000 (thorough) valid projects (rule groups with blank and comment lines, a quarter of the groups without any line, words, alias lines) x a catalogue of 30 rule-syntax faults, 16 rule-runtime faults (each with a word that makes it fire), 15 alias faults and 8 word faults planted at EVERY position in turn, each also on a line that carries precomposed letters which the program rewrites before lexing (52 k runs quick); run must return Err, the matching formatter is called under catch_unwind, and its text is parsed: the named group/line (alias line, word) must be the planted one, the quoted line the planted text, and every caret within [0, chars(line)+1). The evidence lists the error variants reached.",
+   text="Fault-injection monitor: 60 (quick) / 12 000 (thorough) valid projects (rule groups with blank and comment lines, a quarter of the groups without any line, words, alias lines with blank lines among them) x a catalogue of 30 rule-syntax faults, 16 rule-runtime faults (each with a word that makes it fire), 15 alias faults and 8 word faults planted at EVERY position in turn, each also on a line that carries precomposed letters which the program rewrites before lexing (52 k runs quick); run must return Err, the matching formatter is called under catch_unwind, and its text is parsed: the named group/line (alias line, word) must be the planted one, the quoted line the planted text, and every caret within [0, chars(line)+1). The errors that 300 generated rules per project run into are formatted and located as well. The evidence lists the error variants reached.",
    note="error texts are only parsed for position, quoted line and caret columns; position-less errors (e.g. DeletionOnlySeg) and empty caret spans are counted, not judged",
    technique="fault injection at every position + offline check of the formatted error against the planted position"),
  "C01": dict(level="exploration", design="§3 C01",
-   text="Multi-process differential on the public API: 8 (quick) / 48 (thorough) fresh processes - each with its own hash seed, the run reports how many distinct base-phone table orders they had - evaluate the same ~120 k inputs chosen to hit every tie-break of the renderer (`[] > [±F]` on every k-th base and base+diacritic spelling, the same through `+` romanisers, harvested rules x harvested words, error inputs, printed traces, and 600 / 6000 rules that bind an alpha or variable in one input element and use it in a later one, on lists of short words over a small inventory); the same failing rule text at five different (group, line) positions (whole error values are compared, positions included); every second process works through the batches backwards so that processes differ in call history as well as in hash seed; every batch is also run twice in a row, with the words reversed (call by call and as one reversed list), and as one list vs word by word. Any input whose result differs across processes, calls or orders is a violation.",
+   text="Multi-process differential on the public API: 8 (quick) / 48 (thorough) fresh processes - each with its own hash seed, the run reports how many distinct base-phone table orders they had - evaluate the same ~120 k inputs chosen to hit every tie-break of the renderer (`[] > [±F]` on every k-th base and base+diacritic spelling, the same through `+` romanisers, harvested rules x harvested words, error inputs, printed traces, and 600 / 6000 rules that bind an alpha or variable in one input element and use it in a later one, on lists of short words over a small inventory); the same failing rule text at five different (group, line) positions (whole error values are compared, positions included); the same words without, with one and with another deromaniser list; every second process works through the batches backwards so that processes differ in call history as well as in hash seed; every batch is also run twice in a row, with the words reversed (call by call and as one reversed list), and as one list vs word by word. Any input whose result differs across processes, calls or orders is a violation.",
    note="hash seeds cannot be chosen, only sampled (distinct table orders observed are reported); thread-level concurrency is outside the property",
    technique="multi-process / repeated-call / permutation differential (offline comparison of per-process result logs)"),
  "C10": dict(level="exploration", design="§3 C10",
@@ -41,19 +41,19 @@ CHECKS = {
    note="known finding KF-C10-1 (americanist output convention is per input word, lost by staging); intermediate words containing U+FFFD are skipped as the property says",
    technique="metamorphic (staged vs single run, regrouping) runtime monitor with cause attribution"),
  "C09": dict(level="exploration", design="§3 C09",
-   text="Round-trip monitor through the hooks: every spelling base + <= 1 diacritic (quick; <= 2 in thorough, ~370 k) that parses to one segment, and the segments one feature / one place node away from them, are rendered and - unless the rendering contains U+FFFD - parsed back and compared as bundles; 150 k (quick) / 30 M (thorough) random words assembled from those segments with every stress / tone / length pattern, equal segments across boundaries and twin pairs (X next to X+diacritic); and 60 k / 10 M outputs of run on generated rules are fed back through the empty rule list and must be fixed points.",
+   text="Round-trip monitor through the hooks: every spelling base + <= 1 diacritic (quick; <= 2 in thorough, ~370 k) that parses to one segment, and the segments one feature / one place node away from them, are rendered and - unless the rendering contains U+FFFD - parsed back and compared as bundles; 150 k (quick) / 30 M (thorough) random words assembled from those segments with every stress / tone / length pattern, equal segments across boundaries and twin pairs (X next to X+diacritic); and 60 k / 10 M outputs of run on generated rules are fed back through the empty rule list and must be fixed points, and the words the rules made are round-tripped as structures too.",
    note="known findings KF-C09-1/2: a stop or nasal next to a click consonant is ambiguous in the notation itself; structural comparison through the hook, public API for the fixed-point part",
    technique="render/parse round-trip runtime monitor (structural hook + public API fixed point)"),
  "C06": dict(level="exploration", design="§3 C06",
-   text="Planted-absent-literal monitor: 300 k (quick) / 80 M (thorough) rules from the full-grammar generator (all four rule types, sets, optionals, ellipses, structures, variables, alphas, environment sets, condensed rules) get a reserved segment that no generated word contains planted as a mandatory element of every input alternative (insertion: of the context); whenever the real interpreter returns Ok the structural word (hook) must equal the input. A third of the words are instantiated from the rule as it was before the plant went in (so that everything but the plant matches), a quarter are built from recurring syllables (so that back-references match), the rest are random. The run also checks that the plant is what stops the rule (the unplanted rule changes the word in ~19 % of the cases, which is what is counted as non-trivial). Blank and comment-only lines are checked too.",
+   text="Planted-absent-literal monitor: 300 k (quick) / 80 M (thorough) rules from the full-grammar generator (all four rule types, sets, optionals, ellipses, structures, variables, alphas, environment sets, condensed rules) get a reserved segment that no generated word contains planted as a mandatory element of every input alternative (insertion: of the context; a third of the other rules: of every context alternative instead; a third of the plants sit inside a structure); whenever the real interpreter returns Ok the structural word (hook) must equal the input. A third of the words are instantiated from the rule as it was before the plant went in (so that everything but the plant matches), a quarter are built from recurring syllables (so that back-references match), the rest are random. The run also checks that the plant is what stops the rule (the unplanted rule changes the word in ~19 % of the cases, which is what is counted as non-trivial). Blank and comment-only lines are checked too.",
    note="the plant is placed at the top level of the input / context, never inside a set or optional, so it is mandatory by construction; panics and budget exhaustion are recorded for C02, not judged here",
    technique="invariant (output == input) runtime monitor over generated rules with a planted mandatory absent literal"),
  "C07": dict(level="exploration", design="§3 C07",
-   text="Capture-identity monitor (200 k quick / 60 M thorough cases): identity rules through variables (`X1=1..Xk=k > 1..k`, k<=3, matrices, groups, [], %, structures, with generated environments; binders in a context are %, `⟨...⟩` or `⟨..⟩` and the recurring syllables carry tones and secondary stress) and through alphas (`[αF] > [αF]` for all features, nodes, length and stress, on matrices, groups and %) must leave the structural word unchanged; variables used in a context are checked against a neighbour-comparison reference: `A > B / X=1 _ 1` fires exactly between identical bundles, `% > [+stress] / %=1 _ 1` exactly between identical syllables, haplology `%=1 > * / 1_` deletes exactly syllables identical to their predecessor.",
+   text="Capture-identity monitor (200 k quick / 60 M thorough cases): identity rules through variables (`X1=1..Xk=k > 1..k`, k<=3, matrices, groups, [], %, structures, with generated environments; binders in a context are %, `⟨...⟩` or `⟨..⟩` and the recurring syllables carry tones and secondary stress) and through alphas (`[αF] > [αF]` for all features, nodes, length and stress, on matrices, groups and %) must leave the structural word unchanged; variables used in a context are checked against a neighbour-comparison reference: `A > B / X=1 _ 1` fires exactly between identical bundles, `% > [+stress] / %=1 _ 1` exactly between identical syllables, haplology `%=1 > * / 1_` deletes exactly syllables identical to their predecessor, `[αF] [αF]=1 > [±H] 1` changes exactly the first of two neighbours that agree in F (pair-scanning reference).",
    note="known finding KF-C07-1 (stress alpha is one bit); X as a predicate in family (iii) is evaluated with the real matcher on a one-segment word, which C04 validates independently",
    technique="identity / reference-comparison runtime monitor on the structural hook"),
  "C08": dict(level="exploration", design="§3 C08",
-   text="Invariant walker on the hooked word after EVERY rule group: 300 k (quick) / 80 M (thorough) sequences of 1-6 rules (templates that delete, move and insert boundaries, syllables and structures, merge tones, remove and add place nodes; harvested rules; full-grammar rules) on generated words; checks >= 1 syllable, no empty syllable, tone <= 4 non-zero digits, no stray root/laryngeal bits, place never Some(0), no feature bits under an absent sub-node.",
+   text="Invariant walker on the hooked word after EVERY rule group: 300 k (quick) / 80 M (thorough) sequences of 1-6 rules (templates that delete, move and insert boundaries, syllables and structures, merge tones, remove and add place nodes; harvested rules; full-grammar rules) on generated words, plus every single-feature / single-node setter on every single segment the notation can write (547 k applications); a failing later group does not hide the states reached before it; checks >= 1 syllable, no empty syllable, tone <= 4 non-zero digits, no stray root/laryngeal bits, place never Some(0), no feature bits under an absent sub-node.",
    note="invariants are evaluated on the internal Word through the hook; well-formedness of a place value as in C18",
    technique="structural invariant monitor at a hook after every rule group"),
  "C11": dict(level="exploration", design="§3 C11",
@@ -65,7 +65,7 @@ CHECKS = {
    note="public API plus render_word for Change.after; a reported group whose rendering equals the previous one is counted, not judged (the renderer is not injective)",
    technique="trace-vs-prefix-run differential monitor over generated workloads"),
  "C02": dict(level="exploration", design="§3 C02",
-   text="Isolation monitor: every call of run / trace_changes / get_trace_string runs in a worker process under catch_unwind and a step budget (tick hook at 115 loop heads) proportional to |words| x |rules|; the worker publishes the index of the case it is about to run so a case that kills the process is identified and the shard restarted (conservation: assigned = completed + killed). Workload = full-grammar rules, token mutants of the 470 harvested rules, numeric extremes, character noise for rules, words and alias lines, degenerate words; what the other properties' monitors generate (their templates, identity rules, shorthands, tier rules, rule lists, planted rules with words instantiated from them); 400 k cases x 2 build profiles (checked = overflow + debug assertions; release) in the quick tier, 30 M x 2 in thorough. Budget exhaustion is retried at 2x (returns = slow, counted, not a violation; exhausted again = hang) and, for rules with ellipses/optionals whose hot tick sites are the backtracking matcher's, at 64x (superlinear, reported separately from hang). A UB check of the checked build that aborts the process is reported as a sanitizer violation. Thorough adds a slice of the workload (incl. every named alias escape, the from_u32_unchecked site) under Miri.",
+   text="Isolation monitor: every call of run / trace_changes / get_trace_string runs in a worker process under catch_unwind and a step budget (tick hook at 115 loop heads) proportional to |words| x |rules|; the worker publishes the index of the case it is about to run so a case that kills the process is identified and the shard restarted (conservation: assigned = completed + killed). Workload = full-grammar rules, token mutants of the 470 harvested rules, numeric extremes, character noise for rules, words and alias lines, degenerate words; what the other properties' monitors generate (their templates, identity rules, shorthands, tier rules, rule lists, planted rules with words instantiated from them); 400 k cases x 2 build profiles (checked = overflow + debug assertions; release) in the quick tier, 30 M x 2 in thorough. Budget exhaustion is retried at 2x (returns = slow, counted, not a violation); exhausted again: rules with ellipses/optionals whose hot tick sites are the backtracking matcher's get 64x (returning = superlinear, a listed finding), every other case has its budget doubled up to 64x while an attempt takes under 3 s (returning = slow, counted) - exhausted to the end = hang. A case on which the published index stands still for the wall-clock watchdog is run again alone: no return within a minute = hang outside the ticked loops (violation), otherwise the run is inconclusive. Listed known-finding signatures are rate-limited (>100 / >20 000 hits = rate-anomaly). A UB check of the checked build that aborts the process is reported as a sanitizer violation. Thorough adds a slice of the workload (incl. every named alias escape, the from_u32_unchecked site) under Miri.",
    note="step budget constants calibrated on the unchanged tree (largest observed ticks/budget ratio is reported); wall-clock only as a watchdog whose firing is inconclusive; panics are keyed by (innermost function of the code under test, message class) from the symbolised backtrace",
    technique="runtime isolation monitor (catch_unwind + step-budget hook + process-death detection) over generated hostile workloads, two build profiles (checked = overflow/debug-assert/UB-check sanitizer build, release), Miri slice in thorough"),
  "C03": dict(level="exploration", design="§3 C03",
@@ -73,7 +73,7 @@ CHECKS = {
    note="oracle = my reference interpreter over raw feature bits (independent of the implementation's matcher); sampled part depends on VERIF_SEED",
    technique="reference-model runtime monitor, bounded-exhaustive rule x word space"),
  "C04": dict(level="exploration", design="§3 C04",
-   text="Reference-model monitor over a finite space enumerated completely: every base phone and base+1-diacritic segment (8 819) x 26 features and 5 place nodes x +/- as matcher and as setter, all 26x26x2 feature alpha pairs, node alphas carried from a context segment over one donor per distinct place value, node-to-feature coercion, and random multi-feature matrices; the real interpreter's structural result (hook) is compared with a 30-line bit model written from the documented layout. 20 M applications in the quick tier.",
+   text="Reference-model monitor over a finite space enumerated completely: every base phone and base+1-diacritic segment (8 819) x 26 features and 5 place nodes x +/- as matcher and as setter, all 26x26x2 feature alpha pairs, node alphas carried from a context segment over one donor per distinct place value, node-to-feature coercion, random multi-feature matrices, a sub-node together with one of its own features (both orders) or removed together with a feature elsewhere, and alphas in multi-segment words incl. two input elements that must agree; the real interpreter's structural result (hook) is compared with a 30-line bit model written from the documented layout. 20 M applications in the quick tier.",
    note="oracle = my bit model of the documented feature layout (independent of to_node_mask); observation through the structural hook; match is observed through `> [+stress]` on a one-segment word",
    technique="reference-model runtime monitor, exhaustive over the finite segment x feature space"),
  "C05": dict(level="exploration", design="§3 C05",
@@ -81,7 +81,7 @@ CHECKS = {
    note="oracle = my reading of doc.md's tables (length: nearest state the modifier allows; stress as tabulated); contradictory matchers may either not match or error",
    technique="reference-table runtime monitor, exhaustive"),
  "C18": dict(level="exploration", design="§3 C18",
-   text="Exhaustive runtime evaluation of the get/set/match equations on every one of the 65 537 place values, every sub-node value and every feature of the exported Segment/Place API (120 M setter calls per run); the checked build's UB checks guard the unwrap_unchecked getters in every run (an abort by them is reported as a sanitizer violation) and thorough adds a 12.7 k-evaluation slice under Miri. The space is finite and is enumerated completely, so the only gap is code not reachable through these methods.",
+   text="Exhaustive runtime evaluation of the get/set/match equations on every one of the 65 537 place values, every sub-node value, every feature and every byte value of the root / manner / laryngeal nodes of the exported Segment/Place API, bit for bit outside the field that is set (124 M setter calls per run); the checked build's UB checks guard the unwrap_unchecked getters in every run (an abort by them is reported as a sanitizer violation) and thorough adds a 12.7 k-evaluation slice under Miri. The space is finite and is enumerated completely, so the only gap is code not reachable through these methods.",
    note="oracle = the equations themselves evaluated on the real methods; well-formedness predicate of a place value is mine (sub-node present bit set iff payload may be non-zero)",
    technique="runtime law checking over the full finite input space (public API), Miri slice in thorough"),
 }
